@@ -158,11 +158,15 @@ func c17Overlay(c *core.Ctx, g *wm.Gen, r *core.R, base []*wm.Spec) []*wm.Spec {
 			}
 		}
 		// a path is closed iff its first and last references agree: keep overlay paths open
-		if first, last := path.Path[0], path.Path[len(path.Path)-1]; first.IsRef() && last.IsRef() && first.Ref == last.Ref {
-			path.Path = path.Path[:len(path.Path)-1]
-			if len(path.Path) < 2 {
-				continue
+		for len(path.Path) >= 2 {
+			first, last := path.Path[0], path.Path[len(path.Path)-1]
+			if !(first.IsRef() && last.IsRef() && first.Ref == last.Ref) {
+				break
 			}
+			path.Path = path.Path[:len(path.Path)-1]
+		}
+		if len(path.Path) < 2 {
+			continue
 		}
 		if usesBase {
 			c.Count("overlay_path_over_base_points")
@@ -215,7 +219,7 @@ func init() {
 			"distinct = kind + files; non-trivial = at least two non-empty files and a search result that takes features from two files",
 		Assumptions: []string{"a feature is stored in the file that holds everything it references, except overlay paths/relations, which reference the base",
 			"no feature ID occurs in two files (shadowing is not promised by the property)"},
-		Quick: 64, Thorough: 800,
+		Quick: 64, Thorough: 1600,
 		// the cap is a safety net only: a case costs seconds, but the box may be shared and builds allocate ~80 MB per goroutine and stage
 		CaseCap: 15 * time.Minute,
 		Required: []string{"kind_components", "kind_interleaved", "kind_distinct-namespaces", "kind_overlay", "files_merged", "overlay_path_over_base_points",
